@@ -53,6 +53,7 @@ ASSUMPTIONS = [
     '.rx.and_/.rx.or_ and the other helpers are strict functions of their evaluated operands (no short-circuit claimed)',
     'operands that are containers of references (a list of rx / Parameters / literals, a slice lo:hi with such bounds) are modelled flattened: their references are collected and their values resolved left to right exactly as resolve_ref / resolve_value(recursive) do, and the semantics of the operation packs the values back (Driver/C09.lean pyApply, `#shape` suffix); only for operations (not bind / where / method-call arguments); tuples, dicts and deeper nesting are not generated',
     'bind(f, *args, **kwargs): keyword arguments are modelled as further operands after the positional ones (the dependency order and evaluation order of bind()), their names travel in the function name (`#k=x,y`) and the semantics of the two keyword-taking user functions kwpair / kwsub binds them by name (Driver/C09.lean pyApply)',
+    'a @param.depends method of a Parameterized object as root (`rx(obj.m)`, statement rootm) is rendered in the model as the bound function mklist over the parameters it depends on (same `_fn_params`, evaluated by calling the method); keyword arguments of an operation (`expr.rx.pipe(f, y=b)`) are further operands after the positional ones, names in the function name, like for bind',
     'method calls: `expr.method(args)` (`meth`) and one accessor object called twice, `acc = expr.method; acc(a); acc(b)` (`meth2`); an accessor kept across other statements or called more than twice is not generated',
     'inputs are assigned fresh objects: mutating a list in place and re-assigning the same object is outside the model (param then sees old is new, nothing is invalidated - the documented onlychanged contract; use param.trigger)',
     'a Parameter(allow_refs=True) holding an expression as a reference (`ref` / `readref` statements): its `_sync_refs` watcher is modelled as a precedence -1 consumer that runs after all invalidations and before the precedence 0 watchers; the invalidation watchers of nodes created after the holder run again after it (their place in the real registration order; `invalidateFrom`); that the holder mirrors the expression is checked by correspondence and by the oracle, there is no theorem about it; when an exception escapes an update in a program with holders the program ends there (the real dispatch then also skips the invalidation watchers registered after the raising `_sync_refs`, which is not modelled; internal flags are not compared at that step)',
@@ -149,7 +150,7 @@ class _World:
         return kind[1].param[kind[2]]
 
 
-def _apply_form(w, n, form, args):
+def _apply_form(w, n, form, args, kw=None):
     """create the derived expression exactly as a user would write it"""
     if form in BINARY or form in COMPARE:
         return getattr(operator, form)(n, args[0])
@@ -170,7 +171,7 @@ def _apply_form(w, n, form, args):
     if form in ('rx_and', 'rx_or'):
         return getattr(n.rx, form[3:] + '_')(args[0])
     if form.startswith('pipe:'):
-        return n.rx.pipe(_user_fn(form[5:]), *args)
+        return n.rx.pipe(_user_fn(form[5:]), *args, **(kw or {}))
     if form.startswith('map:'):
         return n.rx.map(_user_fn(form[4:]), *args)
     raise RuntimeError('unknown form ' + form)
@@ -195,7 +196,7 @@ def run_impl(case):
             if len(flags) < len(steps):
                 snap()
             s = st['s']
-            if s in ('lit', 'rootp', 'op', 'meth', 'attr', 'meth2', 'bind', 'where'):
+            if s in ('lit', 'rootp', 'rootm', 'op', 'meth', 'attr', 'meth2', 'bind', 'where'):
                 try:
                     if s == 'lit':
                         r = rx(dec(st['v']))
@@ -204,8 +205,11 @@ def run_impl(case):
                     elif s == 'rootp':
                         kind = w.params[st['p']]
                         w.nodes.append(rx(kind[1].param[kind[2]]))
+                    elif s == 'rootm':
+                        w.nodes.append(rx(w.params[st['p']][1].m))      # a @depends method of a Parameterized as root
                     elif s == 'op':
-                        d = _apply_form(w, w.nodes[st['n']], st['op'], [w.arg(a) for a in st['args']])
+                        d = _apply_form(w, w.nodes[st['n']], st['op'], [w.arg(a) for a in st['args']],
+                                        {k: w.arg(a) for k, a in st.get('kw', [])})
                         w.nodes += [None, d]
                     elif s == 'meth':
                         d = getattr(w.nodes[st['n']], st['op'])(*[w.arg(a) for a in st['args']])
@@ -238,7 +242,7 @@ def run_impl(case):
                         # a pipeline through an attribute accessor is rendered with other (copy / root) nodes in the
                         # model: its internal flags are not comparable
                         w.accs.update(range(base, len(w.nodes)))
-                    elif s in ('lit', 'rootp', 'bind', 'where'):
+                    elif s in ('lit', 'rootp', 'rootm', 'bind', 'where'):
                         w.cmp.append((base, w.nodes[base]))
                     elif s == 'op':
                         w.cmp.append((base, w.nodes[base + 1]._prev))   # the copy made by _resolve_accessor
@@ -258,8 +262,13 @@ def run_impl(case):
                     break
             elif s == 'obj':
                 vs = [dec(v) for v in st['vs']]
-                cls = type('O', (param.Parameterized,),
-                           {f'p{i}': param.Parameter(default=None) for i in range(len(vs))})
+                names = [f'p{i}' for i in range(len(vs))]
+
+                def m(self, names=names):
+                    return [getattr(self, n) for n in names]
+                body = {n: param.Parameter(default=None) for n in names}
+                body['m'] = param.depends(*names)(m)        # a method depending on every parameter: rx(obj.m)
+                cls = type('O', (param.Parameterized,), body)
                 inst = cls(**{f'p{i}': v for i, v in enumerate(vs)})
                 for i in range(len(vs)):
                     w.params.append(('o', inst, f'p{i}'))
@@ -319,7 +328,7 @@ def run_impl(case):
 
 # ---------------------------------------------------------------- bookkeeping shared by generator / shrinker / classifier
 
-NODES_OF = {'lit': 1, 'rootp': 1, 'op': 2, 'meth': 3, 'attr': 3, 'meth2': 5, 'bind': 1, 'where': 1}
+NODES_OF = {'lit': 1, 'rootp': 1, 'rootm': 1, 'op': 2, 'meth': 3, 'attr': 3, 'meth2': 5, 'bind': 1, 'where': 1}
 
 
 def _allocs(st):
@@ -508,6 +517,9 @@ def _apply_shadow(sh, st):
     elif s == 'rootp':
         sh.nodes.append(lambda p=st['p']: sh.vals[p])
         sh.user.append(len(sh.nodes) - 1)
+    elif s == 'rootm':
+        sh.nodes.append(lambda p=st['p'], k=st['k']: [sh.vals[p + i] for i in range(k)])
+        sh.user.append(len(sh.nodes) - 1)
     elif s == 'attr':
         subj = sh.nodes[st['n']]
         sh.nodes += [subj, subj]
@@ -530,9 +542,11 @@ def _apply_shadow(sh, st):
             f = lambda obj, *a, name=st['op']: getattr(obj, name)(*a)
             sh.nodes += [subj, subj]
 
-        def node(subj=subj, afs=afs, f=f):
+        kfs = [(k, sh.arg_fn(a)) for k, a in st.get('kw', [])]
+
+        def node(subj=subj, afs=afs, f=f, kfs=kfs):
             obj = subj()
-            return f(obj, *[a() for a in afs])
+            return f(obj, *[a() for a in afs], **{k: a() for k, a in kfs})
         sh.nodes.append(node)
         sh.user.append(len(sh.nodes) - 1)
     elif s == 'bind':
@@ -579,7 +593,8 @@ TABLE = {
            [(f, [_I], 'bool') for f in COMPARE] + [(f, [], _I) for f in UNARY] +
            [('pipe:str', [], 'str'), ('bool', [], 'bool'), ('not_', [], 'bool'), ('is_', ['id'], 'bool'),
             ('is_not', ['id'], 'bool'), ('in_', ['ilist'], 'bool'), ('rx_and', [_I], _I), ('rx_or', [_I], _I),
-            ('pipe:add', [_I], _I), ('m:bit_length', [], _I), ('round', [], _I), ('round0', [], _I),
+            ('pipe:add', [_I], _I), ('pipe:kwsub', ['kw'], _I), ('pipe:kwpair', ['kw'], 'ilist'),
+            ('m:bit_length', [], _I), ('round', [], _I), ('round0', [], _I),
             ('a:imag', [], _I), ('a:real', [], _I), ('a:numerator', [], _I), ('a:denominator', [], _I)],
     'bool': [(f, ['bool'], 'bool') for f in ('and_', 'or_', 'xor', 'rx_and', 'rx_or', 'eq', 'ne')] +
             [('not_', [], 'bool'), ('bool', [], 'bool'), ('pipe:str', [], 'str'), ('is_', ['id'], 'bool'),
@@ -611,6 +626,7 @@ class _Gen:
         self.nwatch = 0
         self.nref = 0
         self.acc = set()      # attribute accessor nodes
+        self.objs = []        # (first parameter id, number of parameters) of every Parameterized object
         self.supp = {}        # node id -> inputs the expression mentions (static)
         self.prog_allow_ref = rng.random() < 0.35
 
@@ -659,6 +675,8 @@ class _Gen:
                 sup = {len(sh.vals) - 1}
             elif st['s'] == 'rootp':
                 sup = {st['p']}
+            elif st['s'] == 'rootm':
+                sup = set(range(st['p'], st['p'] + st['k']))
             else:
                 if 'n' in st:
                     sup |= self.supp.get(st['n'], set())
@@ -673,6 +691,7 @@ class _Gen:
         if st['s'] == 'lit':
             self.ptype.append(rtype)
         elif st['s'] == 'obj':
+            self.objs.append((len(self.ptype), len(rtype)))
             self.ptype.extend(rtype)
         elif st['s'] == 'where':
             self.ptype.append('trig')
@@ -689,6 +708,10 @@ class _Gen:
     def create(self):
         rng, sh = self.rng, self.sh
         r = rng.random()
+        if r < 0.03 and self.objs:
+            p0, k = rng.choice(self.objs)
+            ts = self.ptype[p0:p0 + k]
+            return self.push({'s': 'rootm', 'p': p0, 'k': k}, 'ilist' if all(t == 'int' for t in ts) else 'any')
         if r < 0.08:
             objs = [p for p, k in enumerate(sh.kind) if k == 'obj']
             if objs:
@@ -739,6 +762,12 @@ class _Gen:
             if ok:
                 self.acc.add(len(sh.nodes) - 1)
             return ok
+        if form in ('pipe:kwsub', 'pipe:kwpair'):
+            # obj is the first parameter (x); the second one is passed by keyword or positionally
+            b = self.operand('int')
+            if rng.random() < 0.75:
+                return self.push({'s': 'op', 'n': subj, 'op': form, 'args': [], 'kw': [['y', b]]}, rt)
+            return self.push({'s': 'op', 'n': subj, 'op': form, 'args': [b]}, rt)
         args = [self.operand(o, container=not form.startswith('m:')) for o in ots]
         if form.startswith('m:'):
             if rng.random() < 0.3:               # acc = expr.method; acc(...); acc(...)
@@ -854,7 +883,10 @@ def _directed():
     for t, rows in TABLE.items():
         for form, ots, _ in rows:
             v0, v1 = sample[t]
-            prog = [lit(v0), op(0, form, *[({'S': [L(0), L(2)]} if o == 'slice' else L(argval[o])) for o in ots])]
+            if ots == ['kw']:
+                prog = [lit(v0), {'s': 'op', 'n': 0, 'op': form, 'args': [], 'kw': [['y', L(2)]]}]
+            else:
+                prog = [lit(v0), op(0, form, *[({'S': [L(0), L(2)]} if o == 'slice' else L(argval[o])) for o in ots])]
             new = 3 if form.startswith(('m:', 'a:')) else 2
             prog += [rd(new), st(0, v1), rd(new), rd(new), st(0, v0), rd(new)]
             out.append({'prog': prog})
@@ -917,6 +949,13 @@ def _directed():
     # round(): result type (int / float) and ties to even; round(expr, 0) keeps the operand's type
     out.append({'prog': [lit(F(2.5)), op(0, 'round'), op(0, 'round0'), rd(2), rd(4), st(0, F(3.5)), rd(2), rd(4), st(0, F(-1.5)), rd(2), rd(4),
                          st(0, F(3.0)), rd(2), rd(4), op(4, 'pipe:str'), rd(6), lit(5), op(7, 'round0'), op(7, 'round'), rd(9), rd(11)]})
+    # keyword arguments of an operation (`expr.rx.pipe(f, y=b)`): reactive, Parameter and literal
+    out.append({'prog': [lit(10), lit(3), {'s': 'obj', 'vs': [4]}, {'s': 'op', 'n': 0, 'op': 'pipe:kwsub', 'args': [], 'kw': [['y', N(1)]]},
+                         rd(3), st(1, 5), rd(3), st(0, 20), rd(3), {'s': 'op', 'n': 0, 'op': 'pipe:kwpair', 'args': [], 'kw': [['y', P(2)]]},
+                         rd(5), st(2, 6), rd(5), {'s': 'watch', 'n': 3}, st(1, 7)]})
+    # a @depends method of a Parameterized object as root: rx(obj.m)
+    out.append({'prog': [{'s': 'obj', 'vs': [1, 2]}, {'s': 'rootm', 'p': 0, 'k': 2}, rd(0), st(1, 5), rd(0), op(0, 'pipe:sum'), rd(2),
+                         st(0, 7), rd(2), rd(0), {'s': 'watch', 'n': 2}, st(1, 0), {'s': 'ref', 'n': 0}, st(0, 1), {'s': 'readref', 'h': 0}]})
     # error, cached error, recovery; an error below a derived node
     out.append({'prog': [lit(0), op(0, 'rfloordiv', L(10)), rd(2), rd(2), st(0, 5), rd(2), st(0, 0), rd(2), st(0, 2),
                          op(2, 'add', L(1)), rd(4), st(0, 0), rd(4), rd(2), st(0, 1), rd(4)]})
@@ -1010,7 +1049,7 @@ COVERAGE_TARGETS = ['form:' + f for f in ALL_FORMS] + [
     'resolve:cache-hit', 'resolve:dirty', 'resolve:dirty+dirty_obj', 'resolve:error-cached', 'read:raises', 'read:value',
     'set:changed', 'set:identical', 'set:equal-not-identical', 'set:callbacks', 'set:raises',
     'consumer:trigger_x', 'consumer:trigger_y', 'consumer:watch', 'consumer:sync_refs', 'ref:created', 'readref:value', 'isin:raises', 'op:reverse', 'arg:rx', 'arg:parameter', 'arg:literal', 'bind:keyword-arguments', 'arg:list-of-references', 'arg:slice-of-references',
-    'op:on-where', 'op:on-bind', 'op:on-root', 'op:on-derived', 'op:createErr', 'meth:created', 'meth:accessor-called-twice', 'form:a:imag', 'form:round0', 'attr:as-operand', 'bind:created', 'where:created',
+    'op:on-where', 'op:on-bind', 'op:on-root', 'op:on-derived', 'op:createErr', 'meth:created', 'meth:accessor-called-twice', 'form:a:imag', 'form:round0', 'attr:as-operand', 'bind:created', 'where:created', 'rootm:created', 'op:keyword-argument',
     'rootp:created', 'read:where-family', 'read:bind-family', 'recovered-after-error', 'where-ref-free', 'where-referenced']
 
 
@@ -1032,6 +1071,10 @@ def tags(case, impl):
                 t.append('arg:slice-of-references' if any('l' not in x for x in a['S']) else 'arg:slice-of-literals')
         if s['s'] == 'bind' and s.get('kw'):
             t.append('bind:keyword-arguments')
+        if s['s'] == 'op' and s.get('kw'):
+            t.append('op:keyword-argument')
+        if s['s'] == 'rootm':
+            t.append('rootm:created')
         if s['s'] == 'op':
             t.append('form:' + s['op'])
         elif s['s'] == 'attr':
